@@ -30,6 +30,13 @@ Bin(fn, l, r)        == [Blank("bin") EXCEPT !.fn = fn, !.args = <<l, r>>]
 BinM(fn, l, r, bool, card, on, ml, inc) ==
    [Blank("bin") EXCEPT !.fn = fn, !.args = <<l, r>>, !.bool = bool, !.card = card, !.on = on, !.ml = ml, !.inc = inc]
 
+\* plan composition: children keep their own indices; a second operand is shifted
+Shift(p, k) == [i \in 1..Len(p) |-> [p[i] EXCEPT !.args = [j \in 1..Len(p[i].args) |-> p[i].args[j] + k]]]
+\* unary node over plan p:  mk(child index)
+Over(p, Mk(_)) == p \o <<Mk(Len(p))>>
+\* binary node over plans p and q:  mk(left index, right index)
+Join(p, q, Mk(_, _)) == p \o Shift(q, Len(p)) \o <<Mk(Len(p), Len(p) + Len(q))>>
+
 Smp(t, k, v) == [t |-> t, k |-> k, v |-> v]
 Series(ls, smp) == [ls |-> ls, smp |-> smp]      \* ls: sequence of <<name, value>>
 
